@@ -279,11 +279,17 @@ func runTolerance(c *core.Ctx) []core.Obligation {
 				}
 				return ""
 			}
-			if k, ok := kval(bo.Y); ok {
+			x, y, op := bo.X, bo.Y, bo.Op
+			if _, isK := kval(x); isK {
+				// constant on the left: turn the comparison round
+				x, y = y, x
+				op = map[token.Token]token.Token{token.LSS: token.GTR, token.GTR: token.LSS, token.LEQ: token.GEQ, token.GEQ: token.LEQ}[op]
+			}
+			if k, ok := kval(y); ok {
 				switch {
-				case callee(bo.X) == "Dot" && (bo.Op == token.LSS || bo.Op == token.LEQ) && k <= 0 && k >= -1e-13:
+				case callee(x) == "Dot" && (op == token.LSS || op == token.LEQ) && k <= 0 && k >= -1e-13:
 					okGuard = true
-				case callee(bo.X) == "ChordAngleBetweenPoints" && (bo.Op == token.GTR || bo.Op == token.GEQ) && k <= 2*(1+1e-12) && k > 0:
+				case callee(x) == "ChordAngleBetweenPoints" && (op == token.GTR || op == token.GEQ) && k <= 2*(1+1e-12) && k > 0:
 					okGuard = true
 				}
 			}
